@@ -36,6 +36,19 @@ RULES = {
 RB = "rl_blox.blox.replay_buffer."
 
 
+def _top(txt: str) -> str:
+    """txt with every bracketed group removed (to look for top-level commas)."""
+    out, depth = "", 0
+    for ch in txt:
+        if ch in "([{":
+            depth += 1
+        elif ch in ")]}":
+            depth -= 1
+        elif depth == 0:
+            out += ch
+    return out
+
+
 def sem_split_args(inner: str) -> list:
     """Top-level comma split of a canonical argument list."""
     out, depth, cur = [], 0, ""
@@ -159,6 +172,7 @@ def _basic_index(ix):
 def r7_store_writers(ck, repo, res):
     PB = RB + "PriorityBuffer"
     n_fn = n_alias = 0
+    READ_ONLY = {"sample_batch", "_sample_idx", "prioritized_sampling", "prioritized_sampling_stratified", "compute_importance_ratio", "reset_max_priority", "__len__", "reward_scale", "__getstate__"}
     for fq, fn, _mi in repo.all_functions():
         if not fq.startswith("rl_blox."):
             continue
@@ -169,6 +183,10 @@ def r7_store_writers(ck, repo, res):
         in_pb = fq.startswith(PB + ".")
         mname = fq.rsplit(".", 1)[-1]
         if in_pb and mname in _WRITERS_ALLOWED:
+            continue
+        # the rule is about read-only operations: sampling, weights, length, reset of the tracked maximum (which reads the array);
+        # additions and priority updates are writers by contract and are decided by R2 / R4
+        if fq.startswith(RB) and mname not in READ_ONLY:
             continue
         n_fn += 1
         cfg = res.cfg_of(fn)
@@ -231,37 +249,40 @@ def r7_store_writers(ck, repo, res):
                 n_alias += 1
             ck.ob("R7-store-writers", fq, f"stmt:{short(st, 50)}", bad is None, "does not write the stored priorities" if bad is None else bad,
                   "" if bad is None else f"{bad} mutates the stored priority array outside initialize_priority / update_priority: sampling (or another read-only operation) permanently changes the sampling distribution", loc(mi, st)) if (bad or (isinstance(st, (ast.Assign, ast.AugAssign)) and any(isinstance(x, ast.Name) and is_store(x, node.id) for x in ast.walk(st)))) else None
-    ck.floor("functions-touching-priority", n_fn, 8)
+    ck.floor("functions-touching-priority", n_fn, 5)
     ck.floor("views-of-stored-priorities", n_alias, 2)
 
 
 def r8_multitask(ck, repo, nf):
+    """update_priority reaches the member the last batch came from: both receivers are self.buffers[<same recorded attribute>]."""
     MT = RB + "MultiTaskReplayBuffer"
     mi = repo.module("rl_blox.blox.replay_buffer")
     sb = _m(repo, MT, "sample_batch")
     up = _m(repo, MT, "update_priority")
     rs = _m(repo, MT, "reset_max_priority")
+    from ..sem import recv_canon
 
     def member_calls(fn, meth):
+        cfg = nf.cfg_of(fn)
         out = []
-        for c in ast.walk(fn):
-            if isinstance(c, ast.Call) and isinstance(c.func, ast.Attribute) and c.func.attr == meth and isinstance(c.func.value, ast.Subscript) and dotted(c.func.value.value) == "self.buffers":
-                out.append(c)
+        for n, c in stmt_calls(cfg, lambda c: isinstance(c.func, ast.Attribute) and c.func.attr == meth):
+            r = recv_canon(nf, cfg, mi, n, c)
+            if r.startswith("self.buffers[") and r.endswith("]"):
+                out.append((cfg, n, c, r[len("self.buffers["):-1]))
         return out
     s_calls = member_calls(sb, "sample_batch")
     u_calls = member_calls(up, "update_priority")
     ck.need(len(s_calls) == 1, f"{MT}.sample_batch: expected exactly one self.buffers[...].sample_batch call")
-    s_ix = s_calls[0].func.value.slice
-    ok = len(u_calls) == 1 and ast.dump(u_calls[0].func.value.slice) == ast.dump(s_ix)
+    ck.need(len(u_calls) >= 1, f"{MT}.update_priority: no self.buffers[...].update_priority call (unrecognised idiom)")
+    scfg, sn, sc_, s_ix = s_calls[0]
+    ok = len(u_calls) == 1 and u_calls[0][3] == s_ix and on_every_path_once(u_calls[0][0], [u_calls[0][1].id])
     ck.ob("R8-multitask-routing", MT + ".update_priority", "same-member-as-last-sample", ok,
-          f"sample_batch -> self.buffers[{short(s_ix, 40)}]; update_priority -> {[('self.buffers[' + short(c.func.value.slice, 40) + ']') for c in u_calls]}",
+          f"sample_batch -> self.buffers[{s_ix}]; update_priority -> {['self.buffers[' + u[3] + ']' for u in u_calls]}",
           "" if ok else "the new priorities must go to the member buffer that produced the last batch (its sampled_indices); another member's last-sampled entries would be overwritten instead", loc(mi, up))
-    # the index is an attribute recorded by sample_batch itself on every path to the member call, and written nowhere else
-    ck.need(isinstance(s_ix, ast.Attribute) and dotted(s_ix.value) == "self", f"{MT}.sample_batch: member index is not an attribute of self")
-    cfg = nf.cfg_of(sb)
-    w = [n for n in cfg.nodes if n.kind == "stmt" and isinstance(n.ast, ast.Assign) and any(dotted(t) == dotted(s_ix) for t in n.ast.targets)]
-    callnode = [n for n in cfg.nodes if n.kind == "stmt" and n.ast is not None and any(c is s_calls[0] for c in ast.walk(n.ast))]
-    ok = len(w) == 1 and len(callnode) == 1 and cfg.dominates(w[0].id, callnode[0].id)
+    # the index is an attribute recorded by sample_batch itself before the member call, and written nowhere else
+    ck.need(s_ix.startswith("self.") and s_ix[5:].isidentifier(), f"{MT}.sample_batch: member index `{s_ix}` is not an attribute of self (unrecognised idiom)")
+    w = [n for n in scfg.nodes if n.kind == "stmt" and isinstance(n.ast, ast.Assign) and any(dotted(t) == s_ix for t in n.ast.targets)]
+    ok = len(w) == 1 and scfg.dominates(w[0].id, sn.id)
     ck.ob("R8-multitask-routing", MT + ".sample_batch", "records-sampled-member", ok, f"`{short(w[0].ast, 80) if w else None}` before the member's sample_batch", "" if ok else "sample_batch must record which member it samples from before delegating", loc(mi, sb))
     other = []
     for meth in repo.cls(MT).body:
@@ -269,17 +290,29 @@ def r8_multitask(ck, repo, nf):
             for n in ast.walk(meth):
                 if isinstance(n, (ast.Assign, ast.AugAssign)):
                     for t in (n.targets if isinstance(n, ast.Assign) else [n.target]):
-                        if dotted(t) == dotted(s_ix):
+                        if dotted(t) == s_ix:
                             other.append(f"{meth.name}: {short(n, 60)}")
-    ck.ob("R8-multitask-routing", MT, "sampled-member-single-writer", not other, f"{dotted(s_ix)} written only by sample_batch", "" if not other else f"{other} overwrites the record of the last sampled member", loc(mi, repo.cls(MT)))
-    # the drawn member comes from the non-empty members
-    if w:
-        txt = ast.unparse(w[0].ast.value)
-        ok = "self.active_buffers" in txt and "rng.choice" in txt
-        ck.ob("R8-multitask-routing", MT + ".sample_batch", "draws-from-active", ok, txt, "" if ok else "the member must be drawn from the non-empty members with the caller's rng", loc(mi, w[0].ast))
-    body = "\n".join(ast.unparse(s) for s in rs.body if not (isinstance(s, ast.Expr) and isinstance(s.value, ast.Constant)))
-    ok = body == "for buffer in self.buffers:\n    buffer.reset_max_priority()"
-    ck.ob("R8-multitask-routing", MT + ".reset_max_priority", "all-members", ok, body.replace("\n", " "), "" if ok else "every member's maximum must be recomputed", loc(mi, rs))
+    ck.ob("R8-multitask-routing", MT, "sampled-member-single-writer", not other, f"{s_ix} written only by sample_batch", "" if not other else f"{other} overwrites the record of the last sampled member", loc(mi, repo.cls(MT)))
+    # every member's maximum is recomputed by reset_max_priority
+    rcfg = nf.cfg_of(rs)
+    loops_ = [n for n in rcfg.nodes if n.kind == "for" and dotted(n.ast.iter) == "self.buffers" and isinstance(n.ast.target, ast.Name)]
+    calls = stmt_calls(rcfg, lambda c: isinstance(c.func, ast.Attribute) and c.func.attr == "reset_max_priority")
+    good = False
+    if len(loops_) == 1 and len(calls) == 1:
+        n_, c_ = calls[0]
+        good = dotted(c_.func.value) == loops_[0].ast.target.id and rcfg.control_deps(n_.id) == [(loops_[0].id, True)]
+    elif len(calls) == 1 and not loops_:
+        # while / index loop or a single member: decide only the clear violation (one fixed member)
+        r = recv_canon(nf, rcfg, mi, calls[0][0], calls[0][1])
+        if r.startswith("self.buffers[") and not rcfg.enclosing_loops(calls[0][0].id):
+            good = False
+        else:
+            raise AnalysisError(f"{MT}.reset_max_priority: iteration over the members not recognised")
+    elif not calls:
+        good = False
+    else:
+        raise AnalysisError(f"{MT}.reset_max_priority: iteration over the members not recognised")
+    ck.ob("R8-multitask-routing", MT + ".reset_max_priority", "all-members", good, "; ".join(short(c, 50) for _, c in calls) or "no member call", "" if good else "every member's maximum must be recomputed", loc(mi, rs))
 
 
 def run(ck, repo: Repo, tier: str):
@@ -304,7 +337,14 @@ def run(ck, repo: Repo, tier: str):
     cfg = nf.cfg_of(fn)
     init = stmt_calls(cfg, lambda c: isinstance(c.func, ast.Attribute) and c.func.attr == "initialize_priority")
     sup = stmt_calls(cfg, lambda c: ast.unparse(c.func) == "super().add_sample")
-    ck.need(len(init) == 1 and len(sup) == 1, f"{RB}LAP.add_sample: expected one initialize_priority and one super().add_sample call (unrecognised idiom)")
+    if not init:
+        # the helper may have been inlined: a direct store  <priority store>[IDX] = <max priority>
+        for n_ in cfg.nodes:
+            s_ = n_.ast
+            if n_.kind == "stmt" and isinstance(s_, ast.Assign) and isinstance(s_.targets[0], ast.Subscript) and dotted(s_.targets[0].value) == "self.priority.priority" and dotted(s_.value) == "self.priority.max_priority":
+                fake = ast.copy_location(ast.Call(func=ast.Attribute(value=ast.Name(id="self"), attr="initialize_priority"), args=[s_.targets[0].slice], keywords=[]), s_)
+                init.append((n_, fake))
+    ck.need(len(init) == 1 and len(sup) == 1, f"{RB}LAP.add_sample: expected one priority initialisation and one super().add_sample call (unrecognised idiom)")
     (ni, ci), (ns, cs) = init[0], sup[0]
     a = ci.args[0] if ci.args else None
     pre = False
@@ -354,17 +394,40 @@ def run(ck, repo: Repo, tier: str):
         raise AnalysisError(f"{RB}SubtrajectoryReplayBufferPER.add_sample: slot argument `{short(a) if a is not None else None}` not recognised")
     ck.ob("R2-init-order", RB + "SubtrajectoryReplayBufferPER.add_sample", "init-returned-slots", whole, f"initialize_priority({short(a) if a is not None else None}) <- {short(cs, 50)}",
           "" if whole else "all slots written by the addition (incl. the extra successor row) must receive the maximum priority", loc(mi, fn))
+    # the list returned by the subtrajectory add names exactly the slots written: per path, the returned elements equal the values
+    # insert_idx held immediately before each advance (path evaluation over the entry state; aliases and helpers are transparent)
     sfn = _m(repo, RB + "SubtrajectoryReplayBuffer", "add_sample")
     scfg = nf.cfg_of(sfn)
-    ins = [n for n in scfg.nodes if n.kind == "stmt" and isinstance(n.ast, (ast.Assign, ast.AugAssign)) and dotted(n.ast.targets[0] if isinstance(n.ast, ast.Assign) else n.ast.target) == "inserted_at"]
-    advs = [n for n in scfg.nodes if n.kind == "stmt" and isinstance(n.ast, ast.Assign) and dotted(n.ast.targets[0]) == "self.insert_idx"]
-    if not ins:
-        raise AnalysisError(f"{RB}SubtrajectoryReplayBuffer.add_sample: the record of written slots was not found (unrecognised idiom)")
-    sc0 = Scope(None, mi, {}, "ins")
-    vals_ok = all(nf.poly(n.ast.value, sc0, None).canon() in ("[self.insert_idx]", "(self.insert_idx)") for n in ins)
-    ok = len(ins) == len(advs) and vals_ok and all(scfg.dominates(i_.id, a_.id) for i_, a_ in zip(ins, advs)) and all(scfg.paths_avoiding(a_.id, i_.id, set()) is None for i_, a_ in zip(ins, advs)) \
-        and all(scfg.dominates(advs[k].id, ins[k + 1].id) for k in range(len(ins) - 1))
-    ck.ob("R2-init-order", RB + "SubtrajectoryReplayBuffer.add_sample", "inserted-at-is-written-slot", ok, f"{[short(n.ast) for n in ins]}", "" if ok else "inserted_at must record each write position before the position advances (a slot recorded after the advance is the next, unwritten one; an unrecorded slot keeps an uninitialised priority)", loc(mi, sfn))
+    srets = [n for n in scfg.nodes if n.kind == "stmt" and isinstance(n.ast, ast.Return)]
+    if len(srets) != 1 or srets[0].ast.value is None:
+        raise AnalysisError(f"{RB}SubtrajectoryReplayBuffer.add_sample: expected a single `return <written slots>` (unrecognised idiom)")
+    load_idx = parse_expr("self.insert_idx")
+    seen_sig, bad_sig = set(), []
+    for pth in enumerate_paths(scfg, scfg.entry, {srets[0].id}, max_paths=20000):
+        pe = PathEval(nf, scfg, mi, "subtraj.add", {})
+        written = []
+        for nid, lab in pth[:-1]:
+            nd = scfg.nodes[nid]
+            if nd.kind == "stmt" and isinstance(nd.ast, (ast.Assign, ast.AugAssign)) and any(dotted(t) == "self.insert_idx" for t in (nd.ast.targets if isinstance(nd.ast, ast.Assign) else [nd.ast.target])):
+                written.append(pe.ev(load_idx).canon())
+            pe.step(nid, lab)
+        rv = pe.ev(srets[0].ast.value)
+        got = []
+        for mono, c in rv.terms.items():
+            for a_, e_ in mono:
+                m_ = nf.meta.get(a_, {})
+                got += [a_[1:-1]] * int(c) if a_.startswith("(") and a_.endswith(")") and "," not in _top(a_[1:-1]) else [a_]
+        sig = (tuple(sorted(got)), tuple(sorted(written)))
+        if sig in seen_sig:
+            continue
+        seen_sig.add(sig)
+        if sorted(got) != sorted(written):
+            bad_sig.append(sig)
+    ok = not bad_sig and len(seen_sig) >= 2
+    if len(seen_sig) < 2 and not bad_sig:
+        raise AnalysisError(f"{RB}SubtrajectoryReplayBuffer.add_sample: only {len(seen_sig)} distinct write pattern(s) found (expected: plain step and episode end)")
+    ck.ob("R2-init-order", RB + "SubtrajectoryReplayBuffer.add_sample", "inserted-at-is-written-slot", ok, f"returned slots per path == slots written: {sorted(seen_sig)[:3]}",
+          "" if ok else f"on some path the returned slots {bad_sig[0][0]} differ from the slots written {bad_sig[0][1]}: a slot recorded after the advance is the next, unwritten one; an unrecorded slot keeps an uninitialised priority", loc(mi, sfn))
 
     # ---- R3 sampler form: searchsorted(cumsum(P), U) with P = priority[:len] (* mask[:len]) and U uniform on [0, total) ----------------
     def sampler_forms(cq, meth, fieldtxt, out_store):
@@ -461,24 +524,47 @@ def run(ck, repo: Repo, tier: str):
     retsu = [cfgu.exit]
     allp = enumerate_paths(cfgu, cfgu.entry, {cfgu.exit})
     ck.need(allp, f"{PB}.update_priority: no path")
+    from ..sem import _negate, _flatten_and
+    bm_forms = {nf.poly(parse_expr(x), Scope(None, mi, envu, "u"), None).canon() for x in (f"np.max({pp})", f"{pp}.max()", f"max({pp})", f"jnp.max({pp})")}
+    OLD = "self.max_priority"
+    seen_sig = set()
     for pth in allp:
-        pe = PathEval(nf, cfgu, mi, PB + ".update_priority", envu).run(pth[:-1])
+        pe = PathEval(nf, cfgu, mi, PB + ".update_priority", envu)
+        lits = []
+        for nid, lab in pth[:-1]:
+            nd = cfgu.nodes[nid]
+            if nd.kind == "test" and lab in (True, False) and hasattr(nd.ast, "test"):
+                c = pe.ev(nd.ast.test).canon()
+                lits += _flatten_and(c) if lab else [_negate(c)]
+            pe.step(nid, lab)
         st = {k: v.canon() for k, v in pe.store.items()}
         wrote = st.get(f"self.priority[self.{field}]")
+        newmax = st.get(OLD, OLD)
+        sig = (wrote, newmax, tuple(sorted(lits)))
+        if sig in seen_sig:
+            continue
+        seen_sig.add(sig)
         ok1 = wrote == pp
         ck.ob("R4-bookkeeping", PB + ".update_priority", "writes-batch", ok1, f"self.priority[self.{field}] = {wrote}", "" if ok1 else "must set exactly the last sampled entries to the supplied priorities", loc(mi, fn))
-        newmax = st.get("self.max_priority")
-        good = {nf.poly(parse_expr(x), Scope(None, mi, envu, "u"), None).canon() for x in (f"max(np.max({pp}), self.max_priority)", f"max(self.max_priority, np.max({pp}))", f"np.maximum(self.max_priority, np.max({pp}))", f"max({pp}.max(), self.max_priority)", f"max(self.max_priority, {pp}.max())", f"max(max({pp}), self.max_priority)")}
+        good = {nf.poly(parse_expr(x), Scope(None, mi, envu, "u"), None).canon() for x in (f"max(np.max({pp}), self.max_priority)", f"np.maximum(self.max_priority, np.max({pp}))", f"max({pp}.max(), self.max_priority)", f"max(max({pp}), self.max_priority)", f"np.maximum({pp}.max(), self.max_priority)")}
         ok2 = newmax in good
+        if not ok2:
+            # decided by the branch conditions of this path: keeping the old value is right when it is known to be the larger one, ...
+            ge_old = any(l in (f"Lt({b}, {OLD})", f"LtE({b}, {OLD})") for b in bm_forms for l in lits)
+            ge_new = any(l in (f"Lt({OLD}, {b})", f"LtE({OLD}, {b})") for b in bm_forms for l in lits)
+            if newmax == OLD and ge_old:
+                ok2 = True
+            elif newmax in bm_forms and ge_new:
+                ok2 = True
         why = ""
         if not ok2:
-            if newmax is None:
-                why = "max_priority is not raised: later transitions get an initial priority below stored ones"
-            elif "self.max_priority" not in newmax:
+            if newmax == OLD:
+                why = "max_priority is not raised on a path where the new priorities may exceed it: later transitions get an initial priority below stored ones"
+            elif OLD not in newmax:
                 why = f"max_priority becomes `{newmax}`, which can be smaller than priorities stored earlier: the tracked maximum must never decrease in an update"
             else:
-                raise AnalysisError(f"{PB}.update_priority: new max_priority `{newmax}` not recognised")
-        ck.ob("R4-bookkeeping", PB + ".update_priority", "raises-max", ok2, f"max_priority' = {newmax}", why, loc(mi, fn))
+                raise AnalysisError(f"{PB}.update_priority: new max_priority `{newmax}` under {lits} not recognised")
+        ck.ob("R4-bookkeeping", PB + ".update_priority", "raises-max", ok2, f"max_priority' = {newmax}" + (f" under {lits}" if lits else ""), why, loc(mi, fn))
     fn = _m(repo, PB, "reset_max_priority")
     cfgr = nf.cfg_of(fn)
     lp = [p_ for p_ in positional_params(fn) if p_ != "self"][0]
@@ -605,6 +691,9 @@ def run(ck, repo: Repo, tier: str):
 
 _F = "rl_blox/blox/replay_buffer.py"
 MUTANTS = [
+    {"id": "c08-max-early-return-wrong-side", "file": _F, "rule": "R4", "find": "        self.max_priority = max(np.max(priority), self.max_priority)", "replace": "        batch_max = np.max(priority)\n        if self.max_priority < batch_max:\n            return\n        self.max_priority = batch_max"},
+    {"id": "c08-subtraj-record-after-advance", "file": _F, "rule": "R2", "find": "            inserted_at += [self.insert_idx]\n            self.insert_idx = (self.insert_idx + 1) % self.buffer_size\n", "replace": "            self.insert_idx = (self.insert_idx + 1) % self.buffer_size\n            inserted_at += [self.insert_idx]\n"},
+    {"id": "c08-subtraj-successor-unrecorded", "file": _F, "rule": "R2", "find": "            inserted_at += [self.insert_idx]\n", "replace": ""},
     {"id": "c08-lap-init-current-len", "file": _F, "rule": "R2", "find": "        self.priority.initialize_priority(self.insert_idx)\n        super().add_sample(**sample)", "replace": "        super().add_sample(**sample)\n        self.priority.initialize_priority(self.current_len - 1)"},
     {"id": "c08-ratio-other-indices", "file": _F, "rule": "R5", "find": "        importance_ratio = self.compute_importance_ratio(indices, beta)", "replace": "        importance_ratio = self.compute_importance_ratio(self.priority.sampled_indices[::-1], beta)"},
     {"id": "c08-indices-on-buffer", "file": _F, "rule": "R1", "find": "        self.priority.sampled_indices = np.searchsorted(\n            probabilities, random_points\n        )\n        return self.priority.sampled_indices", "replace": "        self.sampled_indices = np.searchsorted(probabilities, random_points)\n        return self.sampled_indices"},
@@ -632,6 +721,8 @@ MUTANTS = [
     {"id": "c08-multitask-reset-selected", "file": _F, "rule": "R8", "find": "        for buffer in self.buffers:\n            buffer.reset_max_priority()", "replace": "        self.buffers[self.selected_task].reset_max_priority()"},
 ]
 BENIGN = [
+    {"id": "c08-b-max-early-return", "file": _F, "find": "        self.max_priority = max(np.max(priority), self.max_priority)", "replace": "        batch_max = np.max(priority)\n        if self.max_priority > batch_max:\n            return\n        self.max_priority = batch_max"},
+    {"id": "c08-b-subtraj-alias", "file": _F, "find": "        inserted_at = [self.insert_idx]\n        self.insert_idx = (self.insert_idx + 1) % self.buffer_size\n", "replace": "        write_idx = self.insert_idx\n        inserted_at = [write_idx]\n        self.insert_idx = (write_idx + 1) % self.buffer_size\n"},
     {"id": "c08-b-lap-saved-slot", "file": _F, "find": "        self.priority.initialize_priority(self.insert_idx)\n        super().add_sample(**sample)", "replace": "        slot = self.insert_idx\n        super().add_sample(**sample)\n        self.priority.initialize_priority(slot)"},
     {"id": "c08-b-max-np-maximum", "file": _F, "find": "        self.max_priority = max(np.max(priority), self.max_priority)", "replace": "        self.max_priority = np.maximum(self.max_priority, np.max(priority))"},
     {"id": "c08-b-sampler-uniform-total", "file": _F, "find": "        random_uniforms = rng.uniform(0, 1, size=batch_size) * probabilities[-1]", "replace": "        total = probabilities[-1]\n        random_uniforms = rng.uniform(0, total, size=batch_size)"},
